@@ -422,6 +422,8 @@ Proof.
   - vm_compute in H. discriminate.
 Qed.
 
+Local Opaque name_of param_names.
+
 Lemma reduce_spec hints h0 h nj rs h' r : ext h0 h -> length h0 <= nj -> Forall (fresh_or_nondist h0 h) rs ->
   reduce hints false h nj rs = Some (h', r) -> ext h0 h' /\ fresh_or_nondist h0 h' r.
 Proof.
@@ -460,8 +462,6 @@ Qed.
 
 Lemma some_pair_inv {A B} (p : A * B) a b : Some p = Some (a, b) -> p = (a, b).
 Proof. congruence. Qed.
-
-Local Opaque name_of param_names.
 
 (* THE frame theorem of conditioning (code with the constant re-bound, i.e. inplace = false): for every class of operand,
    every keyword list, every heap: all old objects keep their semantic fields, and the result is fresh unless it is an
